@@ -64,6 +64,7 @@ type mVec struct {
 	KT    int    `json:"kt"`
 	Mask  int    `json:"mask"`
 	Oth   int    `json:"oth"`
+	Extra []int  `json:"extra"` // further patterns of the universe by index
 	El    mEl    `json:"el"`
 	Progs []int  `json:"progs"`
 	Alts  []mAlt `json:"alts"`
@@ -119,6 +120,10 @@ var kindLocal = map[string]string{"iq": "iq", "msg": "message", "pres": "presenc
 // about by the specification: it is skipped when the handler's view is compared, but checked
 var texty bool
 
+// formatted: the peer sends formatted XML - white space before every child of an iq and before its end tag
+// (the multiplexer skips it: an iq "with white space only" is an empty iq, the payload is the first ELEMENT)
+var formatted bool
+
 func renderEl(e mEl, stanzaNS string) string {
 	var b strings.Builder
 	if e.Kind == "top" {
@@ -138,6 +143,9 @@ func renderEl(e mEl, stanzaNS string) string {
 	}
 	fmt.Fprintf(&b, ` to="%s">`, addrTo)
 	for _, k := range e.Kids {
+		if formatted && e.Kind == "iq" {
+			b.WriteString("\n  ")
+		}
 		if k.Sp == "#" {
 			b.WriteString("hello")
 			continue
@@ -147,6 +155,9 @@ func renderEl(e mEl, stanzaNS string) string {
 			continue
 		}
 		fmt.Fprintf(&b, `<%s xmlns="%s"/>`, k.Lo, nsURI(k.Sp, stanzaNS))
+	}
+	if formatted && e.Kind == "iq" {
+		b.WriteString("\n")
 	}
 	fmt.Fprintf(&b, `</%s>`, local)
 	return b.String()
@@ -477,7 +488,7 @@ func muxMain(args []string) {
 	// how the stanza reaches the multiplexer: straight from an xml.Decoder (whose character data is only
 	// valid until the next read), from a token slice with the last token delivered together with io.EOF,
 	// and with character data inside the children
-	styles := []string{"decoder", "slice-eof", "texty"}
+	styles := []string{"decoder", "slice-eof", "texty", "formatted"}
 	var evals, mism, nontrivial, regs int
 	samples := []interface{}{}
 	distinct := map[string]bool{}
@@ -494,6 +505,7 @@ func muxMain(args []string) {
 		if v.Oth == 1 {
 			idx = append(idx, u.Others[v.KT-1]...)
 		}
+		idx = append(idx, v.Extra...)
 		opts := make([]mux.Option, 0, len(idx))
 		for _, i := range idx {
 			opts = append(opts, r.option(i, u.Pats[i-1], ""))
@@ -525,7 +537,10 @@ func muxMain(args []string) {
 			}
 			for _, ns := range nss {
 				for _, style := range styles {
-					sliceEOF, texty = style == "slice-eof", style == "texty"
+					sliceEOF, texty, formatted = style == "slice-eof", style == "texty", style == "formatted"
+					if formatted && v.El.Kind != "iq" {
+						continue
+					}
 					evals++
 					obs, retErr, panicked, regPanic := runVec(v, ns)
 					ok := regPanic == "" && panicked == "" && retErr == ""
@@ -561,7 +576,7 @@ func muxMain(args []string) {
 						samples = append(samples, map[string]interface{}{"vector": v, "style": style, "xml": renderEl(v.El, ns), "observed": obs})
 					}
 				}
-				sliceEOF, texty = false, false
+				sliceEOF, texty, formatted = false, false, false
 			}
 		})
 	}
